@@ -1362,7 +1362,7 @@ func c10Configs(l *evlog.Log) []c10Conf {
 	add := func(c c10Conf) { out = append(out, c) }
 	// ---- the built-in fingerprints, dead and live server
 	for _, id := range quicworld.QUICIDNames {
-		for rep := 0; rep < l.Pick(12, 100); rep++ {
+		for rep := 0; rep < l.Pick(12, 300); rep++ {
 			c := c10Default(fmt.Sprintf("quicid/%s/%d", id, rep))
 			c.QUICID = id
 			c.Live = rep%2 == 1
@@ -1513,7 +1513,7 @@ func c10Configs(l *evlog.Log) []c10Conf {
 	// ---- seeded product
 	rng := l.Rand("c10product")
 	pick := func(n int) int { return rng.IntN(n) }
-	for i := 0; i < l.Pick(8000, 100000); i++ {
+	for i := 0; i < l.Pick(8000, 300000); i++ {
 		c := c10Default(fmt.Sprintf("product/%05d", i))
 		c.DCID, c.SCID = c10DCIDs[pick(len(c10DCIDs))], c10SCIDs[pick(len(c10SCIDs))]
 		if pick(3) > 0 {
